@@ -36,10 +36,10 @@ type parserDom struct {
 	forceOpen map[*ssa.Function]bool // SCC members to inline for this analysis
 	// opaqueOnly, when set, replaces the default policy: exactly these functions (and the analysed root) are not followed
 	opaqueOnly map[*ssa.Function]bool
-	tokNames  map[int64]string
-	tokByName map[string]int64
-	base      *State
-	why       string
+	tokNames   map[int64]string
+	tokByName  map[string]int64
+	base       *State
+	why        string
 }
 
 func staticCallees(fn *ssa.Function) []*ssa.Function {
@@ -116,6 +116,47 @@ func newParserDom(p *Program) *parserDom {
 	if d.ptype == nil {
 		d.why = "no struct type with two lexer.Token fields (the parser state) found"
 		return d
+	}
+	// the token state may be a struct of its own (a cursor) held by value in the type that has the grammar methods
+	hasExprMethod := func(nt *types.Named) bool {
+		ms := p.SSA.MethodSets.MethodSet(types.NewPointer(nt))
+		for i := 0; i < ms.Len(); i++ {
+			sig, _ := ms.At(i).Type().(*types.Signature)
+			if sig == nil || sig.Params().Len() != 1 || sig.Results().Len() != 2 || !isNodeType(sig.Results().At(0).Type()) {
+				continue
+			}
+			if b, ok := sig.Params().At(0).Type().Underlying().(*types.Basic); ok && b.Kind() == types.Int {
+				return true
+			}
+		}
+		return false
+	}
+	if !hasExprMethod(d.ptype) {
+		base := d.tokField
+		var outers []*types.Named
+		for _, m := range pkg.Members {
+			t, ok := m.(*ssa.Type)
+			if !ok {
+				continue
+			}
+			nt, ok := t.Type().(*types.Named)
+			if !ok || nt == d.ptype {
+				continue
+			}
+			st, ok := nt.Underlying().(*types.Struct)
+			if !ok {
+				continue
+			}
+			for i := 0; i < st.NumFields(); i++ {
+				if types.Identical(st.Field(i).Type(), d.ptype) && hasExprMethod(nt) {
+					outers = append(outers, nt)
+					d.tokField = [2]string{st.Field(i).Name() + "." + base[0], st.Field(i).Name() + "." + base[1]}
+				}
+			}
+		}
+		if len(outers) == 1 {
+			d.ptype = outers[0]
+		}
 	}
 	// methods of the parser
 	var methods []*ssa.Function
@@ -211,7 +252,9 @@ func newParserDom(p *Program) *parserDom {
 				}
 			}
 		}
-		if only {
+		// a function that reads tokens through a helper outside the recursive core (a cursor's expect/advance) parses
+		// something itself: not a wrapper
+		if only && !d.readsTokensOutsideCore(m, pkg) {
 			d.wrapper[m] = true
 		}
 	}
@@ -236,12 +279,10 @@ func isLexerToken(t types.Type) bool {
 	return ok && nt.Obj().Name() == "Token" && nt.Obj().Pkg() != nil && strings.HasSuffix(nt.Obj().Pkg().Path(), "/lexer")
 }
 
-
 func isNodeType(t types.Type) bool {
 	nt, ok := types.Unalias(t).(*types.Named)
 	return ok && nt.Obj().Name() == "Node" && nt.Obj().Pkg() != nil && strings.HasSuffix(nt.Obj().Pkg().Path(), "/parser")
 }
-
 
 // start prepares an engine and an initial state: parser object with curr=t1, next=t2, package globals initialised.
 func (d *parserDom) start(root *ssa.Function, open ...*ssa.Function) (*Engine, *State) {
@@ -256,21 +297,8 @@ func (d *parserDom) start(root *ssa.Function, open ...*ssa.Function) (*Engine, *
 	d.pobj = e.NewObj("parser", d.ptype)
 	d.book = e.NewObj("book", nil)
 	st := newState()
-	// package initialisers (tables held in package-level variables)
-	if pkg := d.p.SSA.Package(d.p.Parser.Types); pkg != nil {
-		if init := pkg.Func("init"); init != nil {
-			saved := e.D
-			e.D = initDom{}
-			outs := e.Run(init, nil, st)
-			e.D = saved
-			if len(outs) == 1 && !outs[0].Cut && !outs[0].Panic {
-				st = outs[0].St
-			}
-			st.Trace, st.Conds = nil, nil
-			e.paths = 0
-			e.Aborted = ""
-		}
-	}
+	// package initialisers (tables and sentinel values held in package-level variables)
+	st = e.WithInit(d.p.SSA.Package(d.p.Parser.Types), st)
 	st.store(avPtr{d.book, "#n"}, avConst{constant.MakeInt64(0)})
 	if root.Signature.Recv() != nil || root == d.precFn {
 		// a method is entered with the two look-ahead tokens in place; an entry function primes them itself
@@ -451,7 +479,7 @@ func (d *parserDom) Call(e *Engine, st *State, site ssa.CallInstruction, callee 
 		return []CallOut{{St: st, Res: res}}, true
 	}
 	// literal helpers of the parser package: functions (not methods) over strings with an error result
-	if callee.Pkg != nil && callee.Pkg.Pkg == d.p.Parser.Types && sig.Recv() == nil && nres >= 1 && isErrorType(sig.Results().At(nres-1).Type()) && callee != d.precFn {
+	if callee.Pkg != nil && callee.Pkg.Pkg == d.p.Parser.Types && sig.Recv() == nil && nres >= 2 && isErrorType(sig.Results().At(nres-1).Type()) && callee != d.precFn && takesString(sig) {
 		res := make([]AV, nres)
 		for i := 0; i < nres-1; i++ {
 			res[i] = avSym{id: e.fresh(), tag: "lit:" + callee.Name(), nonNil: true, payload: avTuple(args)}
@@ -467,6 +495,47 @@ func (d *parserDom) Call(e *Engine, st *State, site ssa.CallInstruction, callee 
 		return []CallOut{{St: st, Res: res}, {St: bad, Res: badRes}}, true
 	}
 	return nil, false
+}
+
+// readsTokensOutsideCore: m calls, directly or through helpers of the package that are not grammar functions, a
+// function of the lexer package that produces a token.
+func (d *parserDom) readsTokensOutsideCore(m *ssa.Function, pkg *ssa.Package) bool {
+	seen := map[*ssa.Function]bool{}
+	var walk func(f *ssa.Function, top bool) bool
+	walk = func(f *ssa.Function, top bool) bool {
+		if seen[f] {
+			return false
+		}
+		seen[f] = true
+		for _, c := range staticCallees(f) {
+			if c.Pkg != nil && strings.HasSuffix(c.Pkg.Pkg.Path(), "/lexer") {
+				sig := c.Signature
+				for i := 0; i < sig.Params().Len(); i++ {
+					if pt, ok := sig.Params().At(i).Type().(*types.Pointer); ok && isLexerToken(pt.Elem()) && !top {
+						return true
+					}
+				}
+				continue
+			}
+			if c.Pkg != pkg || d.scc[c] {
+				continue
+			}
+			if walk(c, false) {
+				return true
+			}
+		}
+		return false
+	}
+	return walk(m, true)
+}
+
+func takesString(sig *types.Signature) bool {
+	for i := 0; i < sig.Params().Len(); i++ {
+		if b, ok := sig.Params().At(i).Type().Underlying().(*types.Basic); ok && b.Info()&types.IsString != 0 {
+			return true
+		}
+	}
+	return false
 }
 
 func (d *parserDom) isOpaque(callee *ssa.Function) bool {
